@@ -137,7 +137,8 @@ func runSeq(c SeqCase, rec *h.Rec) error {
 		return nil
 	}
 
-	desc := ""
+	junk := c.junk()
+	desc := c.receiverClass()
 	for k, st := range c.Steps {
 		tag := fmt.Sprintf("step %d (%s %+v galEl %d)", k, st.Kind, st.Key, st.GalEl)
 		ek := st.Key.evk()
@@ -160,6 +161,9 @@ func runSeq(c SeqCase, rec *h.Rec) error {
 					return err
 				}
 				sh := ps[i].AllocateShare()
+				if c.Receiver != 0 {
+					dirtyQP(sh.Value, c.Params, junk)
+				}
 				ps[i].GenShare(w.sks[i], crp, &sh)
 				if i == 0 {
 					acc = sh
@@ -168,6 +172,10 @@ func runSeq(c SeqCase, rec *h.Rec) error {
 				}
 			}
 			pk := rlwe.NewPublicKey(params)
+			if c.DirtyOut {
+				dirtyQP(pk.Value[0], c.Params, junk)
+				dirtyQP(pk.Value[1], c.Params, junk)
+			}
 			p.GenPublicKey(acc, crp0, pk)
 			if _, err := pkCheck(params, pk, idealIn, nB); err != nil {
 				return h.Failf("C14:SEQ:pk:not-a-key-of-the-ideal-secret", "%s: %v", tag, err)
@@ -186,6 +194,12 @@ func runSeq(c SeqCase, rec *h.Rec) error {
 					return err
 				}
 				sh := ps[i].AllocateShare(ek)
+				if c.Receiver != 0 {
+					dirtyGadget(&sh.GadgetCiphertext, c.Params, junk)
+				}
+				if c.Receiver != 0 {
+					dirtyGadget(&sh.GadgetCiphertext, c.Params, junk)
+				}
 				if err := ps[i].GenShare(w.sks[i], skOuts[i], crp, &sh); err != nil {
 					return h.Failf("C14:EVK:GenShare-error", "%s party %d: %v", tag, i, err)
 				}
@@ -196,6 +210,9 @@ func runSeq(c SeqCase, rec *h.Rec) error {
 				}
 			}
 			evk := rlwe.NewEvaluationKey(params, ek)
+			if c.DirtyOut {
+				dirtyGadget(&evk.GadgetCiphertext, c.Params, junk)
+			}
 			if err := p.GenEvaluationKey(acc, crp0, evk); err != nil {
 				return h.Failf("C14:GenEvaluationKey:error", "%s: %v", tag, err)
 			}
@@ -228,6 +245,9 @@ func runSeq(c SeqCase, rec *h.Rec) error {
 				}
 			}
 			gk := rlwe.NewGaloisKey(params, ek)
+			if c.DirtyOut {
+				dirtyGadget(&gk.GadgetCiphertext, c.Params, junk)
+			}
 			if err := p.GenGaloisKey(acc, crp0, gk); err != nil {
 				return h.Failf("C14:GenEvaluationKey:error", "%s: %v", tag, err)
 			}
@@ -251,6 +271,11 @@ func runSeq(c SeqCase, rec *h.Rec) error {
 				}
 				var r1 multiparty.RelinearizationKeyGenShare
 				eph[i], r1, r2[i] = ps[i].AllocateShare(ek)
+				if c.Receiver != 0 {
+					dirtyGadget(&r1.GadgetCiphertext, c.Params, junk)
+					dirtyGadget(&r2[i].GadgetCiphertext, c.Params, junk)
+					dirtyQP(eph[i].Value, c.Params, junk)
+				}
 				ps[i].GenShareRoundOne(w.sks[i], crp, eph[i], &r1)
 				if i == 0 {
 					acc1 = r1
@@ -271,6 +296,9 @@ func runSeq(c SeqCase, rec *h.Rec) error {
 				}
 			}
 			rlk := rlwe.NewRelinearizationKey(params, ek)
+			if c.DirtyOut {
+				dirtyGadget(&rlk.GadgetCiphertext, c.Params, junk)
+			}
 			if err := callErr(p.GenRelinearizationKey, acc1, acc2, rlk); err != nil {
 				return h.Failf("C14:RKG:GenRelinearizationKey-error", "%s: %v", tag, err)
 			}
@@ -292,6 +320,7 @@ func runSeq(c SeqCase, rec *h.Rec) error {
 	}
 
 	rec.Class(nClass(n))
+	rec.Class(c.receiverClass())
 	rec.Class(ringClass(c.Params))
 	rec.Classf("steps=%d", len(c.Steps))
 	noPw := false
